@@ -354,6 +354,7 @@ func (p *proxyObject) preventExtensions(throw bool) bool {
 		if target.self.isExtensible() {
 			panic(p.val.runtime.NewTypeError("'preventExtensions' on proxy: trap returned truish but the proxy target is extensible"))
 		}
+		return true
 	}
 
 	return target.self.preventExtensions(throw)
@@ -554,7 +555,25 @@ func (p *proxyObject) proxyGetOwnPropertyDescriptor(targetProp Value, target *Ob
 		resultDesc.Enumerable == FLAG_TRUE {
 		return resultDesc.Value
 	}
-	return r.toValueProp(trapResultObj)
+	// build the property from the completed descriptor (not by re-reading the trap result object):
+	// an accessor whose get and set are both undefined is still an accessor, a missing value is undefined
+	ret := &valueProperty{
+		enumerable:   resultDesc.Enumerable == FLAG_TRUE,
+		configurable: resultDesc.Configurable == FLAG_TRUE,
+	}
+	if resultDesc.IsAccessor() {
+		ret.accessor = true
+		if resultDesc.Getter != nil && resultDesc.Getter != _undefined {
+			ret.getterFunc = r.toObject(resultDesc.Getter)
+		}
+		if resultDesc.Setter != nil && resultDesc.Setter != _undefined {
+			ret.setterFunc = r.toObject(resultDesc.Setter)
+		}
+	} else {
+		ret.value = resultDesc.Value
+		ret.writable = resultDesc.Writable == FLAG_TRUE
+	}
+	return ret
 }
 
 func (p *proxyObject) getOwnPropStr(name unistring.String) Value {
@@ -714,8 +733,12 @@ func (p *proxyObject) setForeignSym(s *Symbol, v, receiver Value, throw bool) (b
 	return p.proxySetSym(s, v, receiver, throw), true
 }
 
-func (p *proxyObject) proxyDeleteCheck(trapResult bool, targetProp Value, name fmt.Stringer, target *Object, throw bool) {
+// proxyDeleteCheck applies the [[Delete]] invariants (ES §10.5.10 steps 9-14). The target is consulted only after a
+// truish trap result: targetProp is evaluated lazily, because a falsish result must not cause a [[GetOwnProperty]]
+// on the target (observable when the target is itself a proxy).
+func (p *proxyObject) proxyDeleteCheck(trapResult bool, targetProp func() Value, name fmt.Stringer, target *Object, throw bool) {
 	if trapResult {
+		targetProp := targetProp()
 		if targetProp == nil {
 			return
 		}
@@ -735,7 +758,7 @@ func (p *proxyObject) proxyDeleteCheck(trapResult bool, targetProp Value, name f
 func (p *proxyObject) deleteStr(name unistring.String, throw bool) bool {
 	target := p.target
 	if v, ok := p.checkHandler().deleteStr(target, name); ok {
-		p.proxyDeleteCheck(v, target.self.getOwnPropStr(name), name, target, throw)
+		p.proxyDeleteCheck(v, func() Value { return target.self.getOwnPropStr(name) }, name, target, throw)
 		return v
 	}
 
@@ -745,7 +768,7 @@ func (p *proxyObject) deleteStr(name unistring.String, throw bool) bool {
 func (p *proxyObject) deleteIdx(idx valueInt, throw bool) bool {
 	target := p.target
 	if v, ok := p.checkHandler().deleteIdx(target, idx); ok {
-		p.proxyDeleteCheck(v, target.self.getOwnPropIdx(idx), idx, target, throw)
+		p.proxyDeleteCheck(v, func() Value { return target.self.getOwnPropIdx(idx) }, idx, target, throw)
 		return v
 	}
 
@@ -755,7 +778,7 @@ func (p *proxyObject) deleteIdx(idx valueInt, throw bool) bool {
 func (p *proxyObject) deleteSym(s *Symbol, throw bool) bool {
 	target := p.target
 	if v, ok := p.checkHandler().deleteSym(target, s); ok {
-		p.proxyDeleteCheck(v, target.self.getOwnPropSym(s), s, target, throw)
+		p.proxyDeleteCheck(v, func() Value { return target.self.getOwnPropSym(s) }, s, target, throw)
 		return v
 	}
 
@@ -879,6 +902,15 @@ func (p *proxyObject) vmCall(vm *vm, n int) {
 	vm.pc++
 }
 
+// hasInstance is OrdinaryHasInstance(C, O) for a callable proxy C (a proxy is never a bound function):
+// Get(C, "prototype") goes through the get trap.
+func (p *proxyObject) hasInstance(v Value) bool {
+	if p.call == nil {
+		return p.baseObject.hasInstance(v)
+	}
+	return hasInstance(p.val, v)
+}
+
 func (p *proxyObject) assertConstructor() func(args []Value, newTarget *Object) *Object {
 	if p.ctor != nil {
 		return p.construct
@@ -928,7 +960,7 @@ func (p *proxyObject) __isCompatibleDescriptor(extensible bool, desc *PropertyDe
 		}
 
 		if desc.IsData() != !current.accessor {
-			return desc.Configurable != FLAG_FALSE
+			return false
 		}
 
 		if desc.IsData() && !current.accessor {
@@ -946,16 +978,24 @@ func (p *proxyObject) __isCompatibleDescriptor(extensible bool, desc *PropertyDe
 		}
 		if desc.IsAccessor() && current.accessor {
 			if !current.configurable {
-				if desc.Setter != nil && desc.Setter.SameAs(current.setterFunc) {
+				if desc.Setter != nil && !sameAccessorFunc(desc.Setter, current.setterFunc) {
 					return false
 				}
-				if desc.Getter != nil && desc.Getter.SameAs(current.getterFunc) {
+				if desc.Getter != nil && !sameAccessorFunc(desc.Getter, current.getterFunc) {
 					return false
 				}
 			}
 		}
 	}
 	return true
+}
+
+// sameAccessorFunc is SameValue(v, f) where a nil f stands for undefined.
+func sameAccessorFunc(v Value, f *Object) bool {
+	if f == nil {
+		return v == _undefined
+	}
+	return v.SameAs(f)
 }
 
 func (p *proxyObject) __sameValue(val1, val2 Value) bool {
